@@ -131,6 +131,7 @@ class MNode:
         self.name = name
         self.attrs = dict(attrs)
         self.kids = []
+        self.preserve_from = None      # number of kids present when xmlSpacePreserve() was called on this element
 
     def nontext(self):
         return [k for k in self.kids if isinstance(k, MNode) or k[0] != 't']
@@ -225,6 +226,10 @@ class System:
         elif kind == 'pi':
             st.pI('t ' + op[1])
             self._add(['p', op[1]])
+        elif kind == 'preserve':
+            st.xmlSpacePreserve()
+            if self.stack[-1].preserve_from is None:
+                self.stack[-1].preserve_from = len(self.stack[-1].kids)
         else:
             raise ValueError(op)
 
@@ -241,8 +246,18 @@ class System:
         return twin.out.getvalue()
 
 
-def compare_tree(m, p, writer, path=''):
-    """Model element m against parsed element p.  Returns [(sig, msg)]."""
+def strict_from(m):
+    """Index of the first child from which the writer documents that it adds no white space of its own: the position where
+    xmlSpacePreserve() was called ("suspends indentation for this element and its descendants") or where the element
+    became mixed content by having text written into it."""
+    first_text = next((i for i, k in enumerate(m.kids) if not isinstance(k, MNode) and k[0] == 't' and k[1] != ''), None)
+    cands = [x for x in (m.preserve_from, first_text) if x is not None]
+    return min(cands) if cands else None
+
+
+def compare_tree(m, p, writer, path='', strict=False):
+    """Model element m against parsed element p.  Returns [(sig, msg)].
+    strict: an ancestor suspended indentation, every character between markup is data."""
     here = '%s/%s' % (path, m.name)
     if m.name != p.name:
         return [({'kind': 'structure_changed', 'what': 'element_name', 'writer': writer}, '%s parsed as <%s>' % (here, p.name))]
@@ -262,16 +277,29 @@ def compare_tree(m, p, writer, path=''):
         bad.append(({'kind': 'structure_changed', 'what': 'children', 'writer': writer},
                     '%s children %r parsed as %r' % (here, shape_m, shape_p)))
         return bad
+    sf = 0 if strict else strict_from(m)
+    # gap g lies before non-text child g; it is strict when that position is at or after the kid index sf
+    kid_index_of_gap = []
+    n = 0
+    for idx, k in enumerate(m.kids):
+        if isinstance(k, MNode) or k[0] != 't':
+            kid_index_of_gap.append(idx)
+    kid_index_of_gap.append(len(m.kids))
     for i, (mg, pg) in enumerate(zip(m.gaps(), p.gaps())):
         if mg == pg:
             continue
-        if mg == '' and pg.strip(' \t\n') == '':
+        gap_strict = sf is not None and kid_index_of_gap[i] > sf if not strict else True
+        if mg == '' and pg.strip(' \t\n') == '' and not gap_strict:
             continue        # indentation between markup where nothing was written
-        bad.append(({'kind': text_mismatch_kind(mg, pg), 'writer': writer},
-                    '%s text run %d written %r recovered %r' % (here, i, mg, pg)))
-    for a, b in zip(mk, pk):
-        if isinstance(a, MNode):
-            bad.extend(compare_tree(a, b, writer, here))
+        kind = 'white_space_added_where_indentation_is_suspended' if (mg == '' and pg.strip(' \t\n') == '') else text_mismatch_kind(mg, pg)
+        bad.append(({'kind': kind, 'writer': writer}, '%s text run %d written %r recovered %r' % (here, i, mg, pg)))
+    nt = 0
+    for idx, k in enumerate(m.kids):
+        if isinstance(k, MNode) or k[0] != 't':
+            a, b = mk[nt], pk[nt]
+            nt += 1
+            if isinstance(a, MNode):
+                bad.extend(compare_tree(a, b, writer, here, strict or (sf is not None and idx >= sf)))
     return bad
 
 
@@ -355,6 +383,8 @@ def make_ops(tier, chunk, nchunks, api):
             out.append(['end'])
             out.append(['chars', 'a'])
             out.append(['pi', 'a'])
+            if system.stream._canIndentStk:
+                out.append(['preserve'])
         out.append(['comment', 'a'])
         strs = REPS if chunk == 0 else []
         if api != 'element':
@@ -473,7 +503,10 @@ def build_awkward_rp66(slot, s, layout='one', n=3, xs=None, xcode=7):
             'template': [{'label': b'COUNTS', 'code': 14}, {'label': b'LENGTHS', 'code': 7}],
             'objects': [{'name': (1, 0, b'N1'), 'comps': [{'count': 4, 'values': [0, 2, 41, -7]}, {'count': 5, 'values': [0.0, -0.0, 2.0, 41.0, 2.5]}]},
                         {'name': (1, 0, b'N2'), 'comps': [{'count': 2, 'values': [3, 1]}, {'count': 3, 'values': [-0.0, 3.0, 1.0]}]}]}
-    sets = [c03.FILE_HEADER, c03.ORIGIN, cset, fset, pset, nset]
+    # a set of a private logical record type (>= 128): indexed like any other table
+    vset = {'role': 'RDSET', 'type': b'440-CUSTOM', 'name': b'prv', 'lrtype': 200,
+            'template': [{'label': b'NOTE', 'code': 20}], 'objects': [{'name': (1, 0, b'V1'), 'comps': [{'values': [b'vendor note']}]}]}
+    sets = [c03.FILE_HEADER, c03.ORIGIN, cset, fset, pset, nset, vset]
     recs = [{'eflr': True, 'type': c03.lrtype_for(x), 'payload': c03.encode_set(x)} for x in sets]
     t = {'channels': chans}
     for f in range(n):
@@ -489,7 +522,7 @@ def build_awkward_rp66(slot, s, layout='one', n=3, xs=None, xcode=7):
         recs.append(rec)
     sul = R.sul_bytes(ident=fld('sul_id', b'Default Storage Set')[:60].ljust(60))
     data, _lay = R.build_file(recs, sul=sul)
-    return data, {'tables': [6], 'types': [fname], 'frames': [n]}
+    return data, {'tables': [7], 'types': [fname], 'frames': [n]}
 
 
 def memory_snapshot(li):
@@ -726,11 +759,16 @@ def check_rp66_index(data, expect, inject=None, name='f.dlis'):
             pass
         return [], h64(('reader', type(err).__name__)), 'reader_rejects'
     out = io.StringIO()
+    public_doc = None
     try:
         snap = memory_snapshot(index)
         try:
             with np.errstate(all='ignore'):
                 IndexXML.write_logical_file_sequence_to_xml(index, out, True)
+                # the default form of the index (private=False): the objects of private sets are left out, the entries are not
+                out2 = io.StringIO()
+                IndexXML.write_logical_file_sequence_to_xml(index, out2, False)
+                public_doc = out2.getvalue()
         except Exception as err:  # noqa
             what = 'frame_type_without_frames' if type(err).__name__ == 'ExceptionLogPassXML' else non_ascii_cause(err, data)
             return [({'kind': 'index_xml_raises', 'exc': type(err).__name__, 'cause': what},
@@ -743,6 +781,12 @@ def check_rp66_index(data, expect, inject=None, name='f.dlis'):
     if not pr.ok:
         return [classify_failure(pr, 'IndexXML', texts, texts)], h64(doc_outcome(doc)), 'unparseable'
     bad = check_index_document(pr.root, snap, expect)
+    if public_doc is not None:
+        pr2 = X.parse(public_doc, xhtml=False)
+        if not pr2.ok:
+            bad.append(classify_failure(pr2, 'IndexXML', texts, texts))
+        else:
+            bad += [(dict(sg, form='private=False'), 'private=False: ' + msg) for sg, msg in check_index_document(pr2.root, snap, expect)]
     if inject and is_plain(inject[1]) and inject[1] in snap['bytes']:
         slot, s = inject
         tag, attr = RP_SLOTS[slot]
